@@ -1917,14 +1917,21 @@ FAMILIES = {
     "kern": (G.kern_specs, check_kern),
     "post": (G.post_specs, check_post),
     "os2": (G.os2_specs, check_os2),
+    # one family per table version, so that every version occurs in every run whatever the seed
+    "os2-v0": (lambda: G.os2_specs(version=0), check_os2),
+    "os2-v1": (lambda: G.os2_specs(version=1), check_os2),
+    "os2-v2": (lambda: G.os2_specs(version=2), check_os2),
+    "os2-v3": (lambda: G.os2_specs(version=3), check_os2),
+    "os2-v4": (lambda: G.os2_specs(version=4), check_os2),
+    "os2-v5": (lambda: G.os2_specs(version=5), check_os2),
     "layout": (G.layout_specs, check_layout),
     "var": (G.var_specs, check_var),
     "colr": (G.colr_specs, check_colr),
 }
 
 # quick-tier case counts per family (thorough = x20)
-QUICK = {"cmap": 900, "cmap-big12": 4, "cmap-big13": 4, "metrics": 400, "glyf": 500, "glyf-loca": 24, "name": 500, "gdef": 400, "kern": 150, "post": 200, "os2": 120, "layout": 500, "var": 300, "colr": 200}
-SHARDS = {"cmap": 8, "cmap-big12": 2, "cmap-big13": 2, "metrics": 4, "glyf": 6, "glyf-loca": 4, "name": 3, "gdef": 4, "kern": 1, "post": 2, "os2": 1, "layout": 6, "var": 5, "colr": 2}
+QUICK = {"cmap": 900, "cmap-big12": 4, "cmap-big13": 4, "metrics": 400, "glyf": 500, "glyf-loca": 24, "name": 500, "gdef": 400, "kern": 150, "post": 200, "os2": 60, "os2-v0": 12, "os2-v1": 12, "os2-v2": 12, "os2-v3": 12, "os2-v4": 12, "os2-v5": 12, "layout": 500, "var": 300, "colr": 200}
+SHARDS = {"cmap": 8, "cmap-big12": 2, "cmap-big13": 2, "metrics": 4, "glyf": 6, "glyf-loca": 4, "name": 3, "gdef": 4, "kern": 1, "post": 2, "os2": 1, "os2-v0": 1, "os2-v1": 1, "os2-v2": 1, "os2-v3": 1, "os2-v4": 1, "os2-v5": 1, "layout": 6, "var": 5, "colr": 2}
 
 REQUIRED_LABELS = [
     "cmap4:idRangeOffset", "cmap4:idDelta", "cmap4:idDelta-wraps", "cmap4:U+FFFF-mapped", "cmap4:empty", "cmap0", "cmap2", "cmap6",
